@@ -433,6 +433,9 @@ Proof. intros []; discriminate. Qed.
 Lemma b2n_eqb0 : forall b, negb (b2n b =? 0)%N = b.
 Proof. intros []; reflexivity. Qed.
 
+Lemma find_possible_keys_unfold : forall rk r, find_possible_keys rk r = map int_bytes (convert_bits (master_bits rk r)).
+Proof. reflexivity. Qed.
+
 Section Candidates.
   Variables (key : list N) (r : nat).
   Hypothesis Hkey : wf_des_key key.
@@ -512,7 +515,7 @@ Section Candidates.
   Proof.
     pose proof (strip_parity_wf key Hkey) as Hs.
     destruct (int_bytes_pack _ Hs) as [Hib Hlt].
-    unfold find_possible_keys. fold mk. rewrite <- Hib. apply in_map.
+    rewrite find_possible_keys_unfold. fold mk. rewrite <- Hib. apply in_map.
     apply convert_complete.
     - exact mk_nonempty.
     - exact mk_last.
@@ -528,12 +531,11 @@ Section Candidates.
   Qed.
 
   (* every candidate has the same round-r key *)
-  Lemma candidates_same_round_key : forall c, In c (find_possible_keys rk r) -> nth r (des_ks_spec c) [] = rk.
+  Lemma candidate_bits : forall g,
+    (forall p, p < 64 -> nth p mk 0%N <> 255%N -> N.testbit g (N.of_nat (64 - 1 - p)) = negb (nth p mk 0 =? 0)%N) ->
+    forall m, In m row -> kbit (int_bytes g) m = kbit key m.
   Proof.
-    intros c Hc. unfold find_possible_keys in Hc. fold mk in Hc. apply in_map_iff in Hc. destruct Hc as [g [<- Hg]].
-    destruct (convert_sound mk g mk_nonempty mk_tri mk_last Hg) as [_ Hbits]. rewrite mk_length in Hbits.
-    unfold rk. rewrite !round_key_closed. f_equal. f_equal.
-    apply map_ext_in. intros m Hm.
+    intros g Hbits m Hm.
     destruct (source_bits_ok row m row_in Hm) as [Hm1 Hm8].
     rewrite kbit_int_bytes by lia.
     destruct (mk_entry (m - 1) ltac:(lia)) as [[_ H8] | [[H _] | [H _]]].
@@ -547,4 +549,238 @@ Section Candidates.
       rewrite Hbits by (try lia; rewrite H; apply b2n_not_255).
       rewrite H. apply b2n_eqb0.
   Qed.
+
+  Lemma candidates_same_round_key : forall c, In c (find_possible_keys rk r) -> nth r (des_ks_spec c) [] = rk.
+  Proof.
+    intros c Hc. rewrite find_possible_keys_unfold in Hc. apply in_map_iff in Hc. destruct Hc as [g [Hcg Hg]].
+    destruct (convert_sound mk g mk_nonempty mk_tri mk_last Hg) as [_ Hbits].
+    assert (forall p, p < 64 -> nth p mk 0%N <> 255%N -> N.testbit g (N.of_nat (64 - 1 - p)) = negb (nth p mk 0 =? 0)%N) as Hb.
+    { intros p Hp Hk. pose proof (Hbits p) as H. rewrite mk_length in H. apply H; assumption. }
+    rewrite <- Hcg. rewrite round_key_closed. unfold rk. rewrite round_key_closed.
+    rewrite (map_ext_in _ _ row (candidate_bits g Hb)). reflexivity.
+  Qed.
 End Candidates.
+
+(* ================================================================== exactly 256 candidates *)
+Definition cnt255 (a : list N) : nat := length (filter (fun m => (m =? 255)%N) a).
+
+Lemma convert_length : forall a, a <> [] -> last a 0%N <> 255%N -> length (convert_bits a) = 2 ^ cnt255 a.
+Proof.
+  induction a as [|bit rest IH]; intros Hne Hlast; [congruence|].
+  destruct rest as [|y rest'].
+  - cbn [convert_bits last] in *. unfold cnt255. cbn [filter].
+    destruct (N.eqb_spec bit 255) as [E|E]; [congruence|reflexivity].
+  - rewrite convert_bits_cons2. cbv zeta. rewrite last_cons2 in Hlast.
+    specialize (IH ltac:(congruence) Hlast).
+    remember (y :: rest') as rest eqn:Hrest. clear Hrest.
+    unfold cnt255 in *. cbn [filter].
+    destruct (N.eqb_spec bit 0) as [E0|E0].
+    + subst bit. change (0 =? 255)%N with false. cbv iota. exact IH.
+    + destruct (N.eqb_spec bit 255) as [E|E].
+      * rewrite app_length, map_length, IH. cbn [length]. rewrite Nat.pow_succ_r'. lia.
+      * rewrite map_length. exact IH.
+Qed.
+
+Definition is_unknown (s : src) : bool := match s with SUnknown => true | _ => false end.
+
+Lemma unknown_count_all :
+  forallb (fun r => length (filter (fun p => is_unknown (src_of r p)) (seq 0 64)) =? 8) (seq 0 16) = true.
+Proof. vm_compute. reflexivity. Qed.
+
+Lemma filter_map_length : forall {A B} (f : A -> B) (p : B -> bool) l,
+  length (filter p (map f l)) = length (filter (fun x => p (f x)) l).
+Proof. intros A B f p l. induction l as [|x l IH]; [reflexivity|]. simpl. destruct (p (f x)); simpl; rewrite IH; reflexivity. Qed.
+
+Section Count.
+  Variables (key : list N) (r : nat).
+  Hypothesis Hkey : wf_des_key key.
+  Hypothesis Hr : r < 16.
+  Let rk := nth r (des_ks_spec key) [].
+  Let mk := master_bits rk r.
+
+  Lemma candidates_count : length (find_possible_keys rk r) = 256.
+  Proof.
+    rewrite find_possible_keys_unfold, map_length. fold mk.
+    rewrite convert_length by (apply mk_nonempty || apply mk_last; assumption).
+    change 256 with (2 ^ 8). f_equal.
+    unfold cnt255. rewrite (list_as_map_nth mk 0%N). rewrite filter_map_length.
+    unfold mk at 2. rewrite master_bits_length.
+    pose proof unknown_count_all as H. rewrite forallb_forall in H. specialize (H r ltac:(apply in_seq; lia)).
+    apply Nat.eqb_eq in H. etransitivity; [|exact H]. f_equal.
+    apply filter_ext_in. intros p Hp. apply in_seq in Hp.
+    pose proof (master_bits_src rk r p ltac:(lia)) as Hs. pose proof (src_table r p Hr ltac:(lia)) as Ht.
+    unfold src_ok in Ht. fold mk in Hs.
+    destruct (src_of r p) as [| |t|]; cbn [is_unknown]; try discriminate; rewrite Hs; try reflexivity.
+    destruct (rk_bit rk t); reflexivity.
+  Qed.
+End Count.
+
+(* ================================================================== get_master_key *)
+Lemma find_app_first : forall {A} (f : A -> bool) l1 x l2,
+  (forall y, In y l1 -> f y = false) -> f x = true -> find f (l1 ++ x :: l2) = Some x.
+Proof.
+  intros A f l1 x l2 H1 Hx. induction l1 as [|y l1 IH]; simpl.
+  - rewrite Hx. reflexivity.
+  - rewrite (H1 y (or_introl eq_refl)). apply IH. intros z Hz. apply H1. right. exact Hz.
+Qed.
+
+Lemma find_first : forall {A} (f : A -> bool) l x, find f l = Some x ->
+  exists l1 l2, l = l1 ++ x :: l2 /\ f x = true /\ forall y, In y l1 -> f y = false.
+Proof.
+  intros A f l x. induction l as [|y l IH]; intros H; [discriminate|].
+  simpl in H. destruct (f y) eqn:Hy.
+  - inversion H; subst. exists [], l. split; [reflexivity|]. split; [exact Hy|]. intros z [].
+  - destruct (IH H) as [l1 [l2 [E [Hx Hl1]]]]. exists (y :: l1), l2. split; [rewrite E; reflexivity|]. split; [exact Hx|].
+    intros z [<-|Hz]; [exact Hy|apply Hl1; exact Hz].
+Qed.
+
+Lemma word_of_bits_lt : forall l, (word_of_bits l < 2 ^ N.of_nat (length l))%N.
+Proof.
+  induction l as [|b l IH]; [reflexivity|].
+  cbn [word_of_bits length]. rewrite Nat2N.inj_succ, N.pow_succ_r by lia. destruct b; lia.
+Qed.
+
+Lemma groups_length : forall {A} w n (l : list A), length (groups w n l) = n.
+Proof. intros A w n. induction n as [|n IH]; intros l; [reflexivity|]. simpl. rewrite IH. reflexivity. Qed.
+
+Lemma groups_word_length : forall {A} w n (l : list A) x, In x (groups w n l) -> length x <= w.
+Proof.
+  intros A w n. induction n as [|n IH]; intros l x Hx; [destruct Hx|].
+  destruct Hx as [<-|Hx]; [rewrite firstn_length; lia|]. eapply IH. exact Hx.
+Qed.
+
+Lemma round_key_shape : forall key r, r < 16 ->
+  let rk := nth r (des_ks_spec key) [] in length rk = 8 /\ Forall (fun w => (w < 64)%N) rk.
+Proof.
+  intros key r Hr rk. unfold rk. rewrite (round_key_closed r Hr). split.
+  - rewrite map_length. apply groups_length.
+  - apply Forall_forall. intros w Hw. apply in_map_iff in Hw. destruct Hw as [x [<- Hx]].
+    pose proof (groups_word_length _ _ _ _ Hx) as Hl. pose proof (word_of_bits_lt x) as Hb.
+    apply N.lt_le_trans with (2 ^ N.of_nat (length x))%N; [exact Hb|].
+    change 64%N with (2 ^ 6)%N. apply N.pow_le_mono_r; lia.
+Qed.
+
+Section GetMasterKeySpec.
+  Variable encrypt : list N -> list N -> list N.
+
+  Let fits (pt ct g : list N) : bool := nlist_eqb ct (encrypt pt g).
+
+  Lemma fits_true : forall pt ct g, fits pt ct g = true <-> encrypt pt g = ct.
+  Proof. intros. unfold fits. rewrite nlist_eqb_eq. split; intros H; symmetry; exact H. Qed.
+
+  Lemma fits_false : forall pt ct g, fits pt ct g = false <-> encrypt pt g <> ct.
+  Proof.
+    intros pt ct g. rewrite <- (fits_true pt ct g). destruct (fits pt ct g); split; intros H; try reflexivity; try discriminate.
+    exfalso. apply H. reflexivity.
+  Qed.
+
+  (* what the result means, for ALL arguments and ALL encryption functions *)
+  Lemma gmk_found : forall rk r pt ct g, get_master_key_m encrypt rk r pt ct = GmkFound g ->
+    exists l1 l2, find_possible_keys rk r = l1 ++ g :: l2 /\ encrypt pt g = ct /\ forall h, In h l1 -> encrypt pt h <> ct.
+  Proof.
+    intros rk r pt ct g H. unfold get_master_key_m in H.
+    destruct (negb (is_bytes rk && is_bytes pt && is_bytes ct) || negb ((length rk =? 8) && (length pt =? 8) && (length ct =? 8))
+              || negb (forallb (fun w => (w <? 64)%N) rk) || (15 <? r)); [discriminate|].
+    destruct (find (fun g0 => nlist_eqb ct (encrypt pt g0)) (find_possible_keys rk r)) as [g'|] eqn:F; [|discriminate].
+    inversion H; subst g'. destruct (find_first _ _ _ F) as [l1 [l2 [E [Hx Hl]]]].
+    exists l1, l2. split; [exact E|]. split; [apply (fits_true pt ct g); exact Hx|].
+    intros h Hh. apply (fits_false pt ct h). apply Hl. exact Hh.
+  Qed.
+
+  Lemma gmk_none : forall rk r pt ct, get_master_key_m encrypt rk r pt ct = GmkNone ->
+    forall h, In h (find_possible_keys rk r) -> encrypt pt h <> ct.
+  Proof.
+    intros rk r pt ct H h Hh. unfold get_master_key_m in H.
+    destruct (negb (is_bytes rk && is_bytes pt && is_bytes ct) || negb ((length rk =? 8) && (length pt =? 8) && (length ct =? 8))
+              || negb (forallb (fun w => (w <? 64)%N) rk) || (15 <? r)); [discriminate|].
+    destruct (find (fun g0 => nlist_eqb ct (encrypt pt g0)) (find_possible_keys rk r)) as [g'|] eqn:F; [discriminate|].
+    apply (fits_false pt ct h). apply (find_none _ _ F). exact Hh.
+  Qed.
+
+  (* from the round key of a real key and a genuine plaintext / ciphertext pair *)
+  Variables (key pt : list N) (r : nat).
+  Hypothesis Hkey : wf_des_key key.
+  Hypothesis Hpt : wf_des_block pt.
+  Hypothesis Hr : r < 16.
+  (* the cipher uses the key only through its key schedule, and produces blocks *)
+  Hypothesis Hsched : forall k k', des_ks_spec k = des_ks_spec k' -> encrypt pt k = encrypt pt k'.
+  Hypothesis Hct : wf_des_block (encrypt pt key).
+
+  Let rk := nth r (des_ks_spec key) [].
+  Let ct := encrypt pt key.
+
+  Lemma gmk_args_accepted :
+    (negb (is_bytes rk && is_bytes pt && is_bytes ct) || negb ((length rk =? 8) && (length pt =? 8) && (length ct =? 8))
+     || negb (forallb (fun w => (w <? 64)%N) rk) || (15 <? r)) = false.
+  Proof.
+    destruct (round_key_shape key r Hr) as [L W]. fold rk in L, W.
+    destruct Hpt as [Lp Bp]. destruct Hct as [Lc Bc]. fold ct in Lc, Bc.
+    assert (is_bytes rk = true) as ->.
+    { apply is_bytes_true. eapply Forall_impl; [|exact W]. intros a Ha. cbv beta in Ha. lia. }
+    rewrite (is_bytes_true pt Bp), (is_bytes_true ct Bc), L, Lp, Lc.
+    assert (forallb (fun w => (w <? 64)%N) rk = true) as ->.
+    { apply forallb_forall. intros w Hw. rewrite Forall_forall in W. apply N.ltb_lt. apply W. exact Hw. }
+    assert ((15 <? r) = false) as -> by (apply Nat.ltb_ge; lia). reflexivity.
+  Qed.
+
+  Lemma stripped_fits : encrypt pt (strip_parity key) = ct.
+  Proof. unfold ct. apply Hsched. apply des_ks_strip. Qed.
+
+  (* never None, never refused: some candidate is returned, it maps pt to ct and has the given round key *)
+  Lemma gmk_returns_key : exists g, get_master_key_m encrypt rk r pt ct = GmkFound g
+    /\ encrypt pt g = ct /\ nth r (des_ks_spec g) [] = rk /\ In g (find_possible_keys rk r).
+  Proof.
+    unfold get_master_key_m. rewrite gmk_args_accepted.
+    destruct (find (fun g0 => nlist_eqb ct (encrypt pt g0)) (find_possible_keys rk r)) as [g|] eqn:F.
+    - exists g. split; [reflexivity|]. apply find_some in F. destruct F as [Hin Hf].
+      split; [apply (fits_true pt ct g); exact Hf|]. split; [|exact Hin].
+      apply (candidates_same_round_key key r Hr). exact Hin.
+    - exfalso. pose proof (find_none _ _ F _ (stripped_in_candidates key r Hkey Hr)) as H.
+      cbv beta in H. apply (fits_false pt ct (strip_parity key)) in H. apply H. exact stripped_fits.
+  Qed.
+
+  (* ... and it is the parity-stripped key provided no earlier candidate collides on this block *)
+  Lemma gmk_returns_stripped :
+    (forall l1 l2, find_possible_keys rk r = l1 ++ strip_parity key :: l2 -> forall h, In h l1 -> encrypt pt h <> ct) ->
+    get_master_key_m encrypt rk r pt ct = GmkFound (strip_parity key).
+  Proof.
+    intros Hno. unfold get_master_key_m. rewrite gmk_args_accepted.
+    destruct (in_split _ _ (stripped_in_candidates key r Hkey Hr)) as [l1 [l2 E]]. fold rk in E.
+    rewrite E. rewrite find_app_first; [reflexivity| |].
+    - intros y Hy. apply (fits_false pt ct y). apply (Hno l1 l2 E). exact Hy.
+    - apply (fits_true pt ct (strip_parity key)). exact stripped_fits.
+  Qed.
+End GetMasterKeySpec.
+
+(* ================================================================== statements used by Props/C10.v *)
+Lemma candidates_contain_key_lemma : forall key r, wf_des_key key -> r < 16 ->
+  let rk := nth r (des_ks_spec key) [] in
+  length (find_possible_keys rk r) = 256
+  /\ In (strip_parity key) (find_possible_keys rk r)
+  /\ forall c, In c (find_possible_keys rk r) -> nth r (des_ks_spec c) [] = rk.
+Proof.
+  intros key r Hk Hr rk. split; [apply candidates_count; assumption|].
+  split; [apply stripped_in_candidates; assumption|]. intros c Hc. apply candidates_same_round_key; assumption.
+Qed.
+
+Lemma get_master_key_result_lemma : forall (encrypt : list N -> list N -> list N) rk r pt ct,
+  (forall g, get_master_key_m encrypt rk r pt ct = GmkFound g ->
+     exists l1 l2, find_possible_keys rk r = l1 ++ g :: l2 /\ encrypt pt g = ct /\ forall h, In h l1 -> encrypt pt h <> ct)
+  /\ (get_master_key_m encrypt rk r pt ct = GmkNone -> forall h, In h (find_possible_keys rk r) -> encrypt pt h <> ct).
+Proof. intros. split; [intros g; apply gmk_found|apply gmk_none]. Qed.
+
+Lemma get_master_key_spec_lemma : forall (encrypt : list N -> list N -> list N) key pt r,
+  wf_des_key key -> wf_des_block pt -> r < 16 ->
+  (forall k k', des_ks_spec k = des_ks_spec k' -> encrypt pt k = encrypt pt k') ->
+  wf_des_block (encrypt pt key) ->
+  let rk := nth r (des_ks_spec key) [] in
+  let ct := encrypt pt key in
+  (exists g, get_master_key_m encrypt rk r pt ct = GmkFound g
+             /\ encrypt pt g = ct /\ nth r (des_ks_spec g) [] = rk /\ In g (find_possible_keys rk r))
+  /\ ((forall l1 l2, find_possible_keys rk r = l1 ++ strip_parity key :: l2 -> forall h, In h l1 -> encrypt pt h <> ct) ->
+      get_master_key_m encrypt rk r pt ct = GmkFound (strip_parity key)).
+Proof.
+  intros encrypt key pt r Hk Hp Hr Hs Hc rk ct. split.
+  - apply gmk_returns_key; assumption.
+  - apply gmk_returns_stripped; assumption.
+Qed.
